@@ -182,7 +182,8 @@ Section embed.
     rewrite Hen in En1.
     (* the state after the entry hook and whether the call is hooked *)
     assert (CASES :
-      (do_enter c s a t0 = s1 /\ hooked c s a = false) \/
+      (hooked c s a = false /\ stack (do_enter c s a t0) = stack s1 /\ ridx (do_enter c s a t0) = ridx s1 /\
+       out (do_enter c s a t0) = out s1 /\ enabled (do_enter c s a t0) = true) \/
       (hooked c s a = true /\ exists fr top, f_depth fr = ridx s /\ f_addr fr = a /\
           (norecord (f_flags fr) = false -> f_start fr = t0) /\
           fresh top fr (ridx s1) (do_enter c s a t0) s1 /\
@@ -192,7 +193,7 @@ Section embed.
         match goal with |- context [entry_record c s1 ?fr tr sv] =>
           destruct (entry_record_shape s1 fr tr sv En1 Hon Hoff) as (top & F & N); exists fr, top end.
         cbn [f_depth f_addr f_start f_flags norecord noflags]. split; [exact Ri1|]. split; [reflexivity|]. split; [first [intros _; reflexivity | intro Q; discriminate Q]|]. split; [exact F|exact N].
-      - left. split; reflexivity.
+      - left. cbn [stack ridx out enabled]. repeat split; try reflexivity. exact En1.
       - right. split; [reflexivity|].
         match goal with |- context [entry_record c s1 ?fr tr sv] =>
           destruct (entry_record_shape s1 fr tr sv En1 Hon Hoff) as (top & F & N); exists fr, top end.
@@ -201,14 +202,14 @@ Section embed.
         match goal with |- context [entry_record c s1 ?fr tr sv] =>
           destruct (entry_record_shape s1 fr tr sv En1 Hon Hoff) as (top & F & N); exists fr, top end.
         cbn [f_depth f_addr f_start f_flags norecord]. split; [exact Ri1|]. split; [reflexivity|]. split; [first [intros _; reflexivity | intro Q; discriminate Q]|]. split; [exact F|exact N]. }
-    destruct CASES as [[Een Hhk] | (Hhk & fr & top & Fd & Fa & Fs & F & Nn)].
+    destruct CASES as [(Hhk & St1' & Ri1' & Ou1' & En1') | (Hhk & fr & top & Fd & Fa & Fs & F & Nn)].
     - (* -pg shape, entry rejected: no frame, no exit hook; the callees run in place *)
-      rewrite Een, Hhk.
-      destruct (RK s1 (false :: hk) En1) as (s2 & g & E2 & M2 & A2).
-      { unfold idx in *. rewrite St1. lia. }
+      rewrite Hhk. set (s1' := do_enter c s a t0) in *.
+      destruct (RK s1' (false :: hk) En1') as (s2 & g & E2 & M2 & A2).
+      { unfold idx in *. rewrite St1', St1. lia. }
       unfold exec in E2. rewrite E2. cbn [dstep]. exists s2, g. split; [reflexivity|]. split.
       + rewrite <- (app_nil_r g). apply emb_drop; [exact M2|constructor].
-      + destruct A2 as (E & I & S2 & O2). unfold aft. rewrite St1, Ri1, Ou1 in *. auto.
+      + destruct A2 as (E & I & S2 & O2). unfold aft. rewrite St1', Ri1', Ou1', St1, Ri1, Ou1 in *. auto.
     - rewrite Hhk. set (s2 := do_enter c s a t0) in *.
       destruct F as (St2 & Ou2 & En2 & Gh & Wr & Fe & Kind).
       destruct (RK s2 (true :: hk) En2) as (s3 & g & E3 & M3 & A3).
